@@ -31,12 +31,12 @@ open Manticore Manticore.SmbIR Manticore.Gen.SmbCommands
     field. -/
 theorem non_mirror_commands :
     (commands.filter (fun c => !Mirror c)).map (·.name) =
-      ["FindCloseResponse", "FindResponse", "FindUniqueResponse", "LockAndReadResponse", "LockingAndxRequest",
-       "NegotiateRequest", "NegotiateResponse", "OpenAndxRequest", "OpenAndxResponse",
-       "QueryInformation2Response", "QueryInformationResponse", "ReadRawRequest", "ReadResponse",
-       "RenameRequest", "SessionSetupAndxRequest", "SessionSetupAndxResponse", "TransactionRequest",
-       "TreeConnectRequest", "WriteAndCloseRequest", "WriteAndUnlockRequest", "WriteAndxRequest",
-       "WriteMpxRequest", "WriteRawRequest", "WriteRequest"] := by decide +kernel
+      ["FindCloseResponse", "FindResponse", "FindUniqueResponse", "LockAndReadResponse",
+       "LockingAndxRequest", "NegotiateRequest", "NegotiateResponse", "OpenAndxRequest",
+       "OpenAndxResponse", "QueryInformationResponse", "ReadRawRequest", "ReadResponse",
+       "RenameRequest", "SessionSetupAndxRequest", "SessionSetupAndxResponse",
+       "TransactionRequest", "TreeConnectRequest", "WriteAndCloseRequest", "WriteAndUnlockRequest",
+       "WriteAndxRequest", "WriteMpxRequest", "WriteRawRequest", "WriteRequest"] := by decide +kernel
 
 /-- **every AndX command consumes its AndX block**: each of the 16 structures whose `IsAndX` returns
     true has the stanza (early returns on an empty parameter stream only, `AndX.Unmarshal` of the
@@ -52,9 +52,9 @@ theorem known_roundtrip_findings :
     commands.filterMap (fun c => (knownRtKind c).map (fun k => (k, c.name))) =
       [(.fixedEntrySize, "FindResponse"), (.fixedEntrySize, "FindUniqueResponse"),
        (.fieldNotMarshalled, "NegotiateRequest"), (.fieldNotMarshalled, "NegotiateResponse"),
-       (.fieldNotUnmarshalled, "QueryInformation2Response"), (.conditionalField, "ReadRawRequest"),
-       (.readsWholeBuffer, "TreeConnectRequest"), (.conditionalField, "WriteAndCloseRequest"),
-       (.conditionalField, "WriteAndxRequest"), (.conditionalField, "WriteRawRequest")] := by decide +kernel
+       (.conditionalField, "ReadRawRequest"), (.readsWholeBuffer, "TreeConnectRequest"),
+       (.conditionalField, "WriteAndCloseRequest"), (.conditionalField, "WriteAndxRequest"),
+       (.conditionalField, "WriteRawRequest")] := by decide +kernel
 
 /-- **every buffer is sized by the field documented to size it**: the (command, buffer, length) and
     (command, list, count) relations the regenerated unmarshal programs rely on are exactly the pinned
@@ -225,8 +225,8 @@ theorem mirror_loops_extends : commands.all (fun c => !Mirror c || MirrorLoops c
     the parameter block. -/
 theorem non_mirror_loops_commands :
     (commands.filter (fun c => !MirrorLoops c)).map (·.name) =
-      ["FindCloseResponse", "FindResponse", "FindUniqueResponse", "LockAndReadResponse", "NegotiateRequest",
-       "NegotiateResponse", "QueryInformation2Response", "ReadRawRequest", "ReadResponse", "RenameRequest",
+      ["FindCloseResponse", "FindResponse", "FindUniqueResponse", "LockAndReadResponse",
+       "NegotiateRequest", "NegotiateResponse", "ReadRawRequest", "ReadResponse", "RenameRequest",
        "TreeConnectRequest", "WriteAndCloseRequest", "WriteAndUnlockRequest", "WriteRequest"] := by decide +kernel
 
 /-- **C04, generic round trip over the loop fragment.**  As `mirror_roundtrip`, for every command whose
